@@ -97,6 +97,8 @@ def r_expr(e):
         return "%s%d(%s)" % ("m" if e[1] in METHODS else "f", e[1], ", ".join(arg(i, a) for i, a in enumerate(e[2])))
     if k == "slit":
         if is_array_sid(e[1]): return "[%s]" % ", ".join(r_expr(a) for a in e[2])
+        if len(e) > 3 and e[3]:      # bare literal (no `as S`): only where the position gives the type (right-hand side of an assignment)
+            return "{ %s }" % ", ".join(".F%d = %s" % (i, r_expr(a)) for i, a in enumerate(e[2]))
         return "({ %s } as S%d)" % (", ".join(".F%d = %s" % (i, r_expr(a)) for i, a in enumerate(e[2])), e[1])
     if k == "field":
         if e[3] if len(e) > 3 else False: return "%s[%d]" % (r_expr(e[1]), e[2])
@@ -611,7 +613,7 @@ class Gen:
         choices = ["let"] * 4 + ["print"] * 3
         if assignable: choices += ["assign"] * 3 + ["cassign"] * 2 + ["inc"]
         sassignable = [(x, ty) for x, ty in assignable if is_struct(ty)]
-        if sassignable: choices += ["assignf"] * 3
+        if sassignable: choices += ["assignf"] * 3 + ["selfassign"]
         if self.structs and r.random() < 0.5: choices += ["dump"] * 2
         if self.fnlits and r.random() < 0.25: choices += ["fnlit"]
         if d > 0 and self.budget > 3:
@@ -629,6 +631,22 @@ class Gen:
             e = self.expr(t, env, r.randint(0, 3))
             env[-1][x] = (t, const)
             return ("let", x, t, e, const)
+        if c == "selfassign":
+            # x = { .F0 = x.F1, .F1 = x.F0 + e, ... }: every component of the new value is computed from the OLD value of x
+            # (seed C01e: a literal built directly into the assigned variable reads components it has already overwritten)
+            x, ty = r.choice(sassignable)
+            fts = fields_of(ty)
+            self.stmt_used = {x}
+            es = []
+            for i_, ft in enumerate(fts):
+                j_ = r.randrange(len(fts))
+                e = ("field", ("var", x), j_, is_array(ty))
+                if fts[j_] != ft: e = ("cast", e, ft)
+                if r.random() < 0.4 and (self.allow_subword_arith or BITS[ft] >= 32):
+                    e = ("bin", r.choice(["+", "-"]), e, self.lit(ft))
+                es.append(e)
+            self.feat("self-referential-aggregate-assignment")
+            return ("assign", x, ("slit", sid_of(ty), es, r.random() < 0.6))
         if c == "fnlit":
             self.feat("function-literal")
             return ("fnlit", self.fresh(), self.fresh(), r.choice(self.itys))
